@@ -484,22 +484,25 @@ theorem set_add_sim (d : Decl) (s : PSet) (h : SetInv d s) (x : Val) :
       ∧ SetInv d (s.add x).1 := by
   simp only [step]
   unfold PSet.add
+  simp only [setAddChecksTypeFirst, if_true]
+  unfold PSet.addTypeCheckFirst
   have hhi := h.hi
+  by_cases h3 : typeMismatch x s.base
+  · have hn : ¬ setAddAllowed d (sortL s.cells) x := by
+      intro hh; have := hh.1; rw [← h.base] at this; exact (typeMismatch_iff _ _).mp h3 this
+    rw [if_pos h3, if_neg hn]; exact ⟨rfl, h⟩
+  have h3' : x.ty = s.base := Classical.not_not.mp (fun hne => h3 ((typeMismatch_iff _ _).mpr hne))
+  rw [if_neg h3]
   cases hb : s.hi with
   | none =>
     have hdn : d.hi = none := by rw [← hhi, hb]
     simp only
-    by_cases h3 : typeMismatch x s.base
-    · have hn : ¬ setAddAllowed d (sortL s.cells) x := by
-        intro hh; have := hh.1; rw [← h.base] at this; exact (typeMismatch_iff _ _).mp h3 this
-      rw [if_pos h3, if_neg hn]; exact ⟨rfl, h⟩
-    · have h3' : x.ty = s.base := Classical.not_not.mp (fun hne => h3 ((typeMismatch_iff _ _).mpr hne))
-      have hy : setAddAllowed d (sortL s.cells) x :=
-        ⟨by rw [← h.base]; exact h3', Or.inr (withinUpper_none hdn _)⟩
-      rw [if_neg h3, if_pos hy]
-      refine ⟨by simp [sortL_pySetAdd, R.obs], { h with hi := hdn.symm, upper := withinUpper_none hdn _, nodup := ?_, typed := ?_ }⟩
-      · exact nodup_pySetAdd _ _ h.nodup
-      · exact typed_pySetAdd _ _ _ h.typed (by rw [← h.base]; exact h3')
+    have hy : setAddAllowed d (sortL s.cells) x :=
+      ⟨by rw [← h.base]; exact h3', Or.inr (withinUpper_none hdn _)⟩
+    rw [if_pos hy]
+    refine ⟨by simp [sortL_pySetAdd, R.obs], { h with hi := hdn.symm, upper := withinUpper_none hdn _, nodup := ?_, typed := ?_ }⟩
+    · exact nodup_pySetAdd _ _ h.nodup
+    · exact typed_pySetAdd _ _ _ h.typed (by rw [← h.base]; exact h3')
   | some bnd =>
     have hds : d.hi = some bnd := by rw [← hhi, hb]
     have hle : (s.cells.length : Int) ≤ bnd := (withinUpper_some hds _).mp h.upper
@@ -510,7 +513,8 @@ theorem set_add_sim (d : Decl) (s : PSet) (h : SetInv d s) (x : Val) :
     by_cases h2 : fullTest setFullGe s.cells.length (setFullAt s.lo bnd) = true
     · rw [if_pos h2]
       by_cases hm : x ∈ s.cells
-      · have hy : setAddAllowed d (sortL s.cells) x := ⟨h.typed x hm, Or.inl ((mem_sortL x _).mpr hm)⟩
+      · have hy : setAddAllowed d (sortL s.cells) x :=
+          ⟨by rw [← h.base]; exact h3', Or.inl ((mem_sortL x _).mpr hm)⟩
         have hnn : ¬ ¬ x ∈ s.cells := fun hh => hh hm
         rw [if_neg hnn, if_pos hy]
         have hms : x ∈ sortL s.cells := (mem_sortL x _).mpr hm
@@ -528,19 +532,14 @@ theorem set_add_sim (d : Decl) (s : PSet) (h : SetInv d s) (x : Val) :
     have hlt : ((s.cells.length + 1 : Nat) : Int) ≤ bnd := by
       have : ¬ (s.cells.length : Int) = bnd := fun hh => h2 (hft.mpr hh)
       omega
-    by_cases h3 : typeMismatch x s.base
-    · have hn : ¬ setAddAllowed d (sortL s.cells) x := by
-        intro hh; have := hh.1; rw [← h.base] at this; exact (typeMismatch_iff _ _).mp h3 this
-      rw [if_pos h3, if_neg hn]; exact ⟨rfl, h⟩
-    · have h3' : x.ty = s.base := Classical.not_not.mp (fun hne => h3 ((typeMismatch_iff _ _).mpr hne))
-      have hy : setAddAllowed d (sortL s.cells) x :=
-        ⟨by rw [← h.base]; exact h3', Or.inr ((withinUpper_some hds _).mpr (by rw [length_sortL]; exact hlt))⟩
-      rw [if_neg h3, if_pos hy]
-      refine ⟨by simp [sortL_pySetAdd, R.obs], { h with hi := hds.symm, upper := ?_, nodup := ?_, typed := ?_ }⟩
-      · have := length_pySetAdd_le s.cells x
-        exact (withinUpper_some hds _).mpr (by simp only; omega)
-      · exact nodup_pySetAdd _ _ h.nodup
-      · exact typed_pySetAdd _ _ _ h.typed (by rw [← h.base]; exact h3')
+    have hy : setAddAllowed d (sortL s.cells) x :=
+      ⟨by rw [← h.base]; exact h3', Or.inr ((withinUpper_some hds _).mpr (by rw [length_sortL]; exact hlt))⟩
+    rw [if_pos hy]
+    refine ⟨by simp [sortL_pySetAdd, R.obs], { h with hi := hds.symm, upper := ?_, nodup := ?_, typed := ?_ }⟩
+    · have := length_pySetAdd_le s.cells x
+      exact (withinUpper_some hds _).mpr (by simp only; omega)
+    · exact nodup_pySetAdd _ _ h.nodup
+    · exact typed_pySetAdd _ _ _ h.typed (by rw [← h.base]; exact h3')
 
 theorem set_sim (d : Decl) (s : PSet) (h : SetInv d s) (op : Op) :
     step d (.set (sortL s.cells)) op = (.set (sortL (s.step op).1.cells), (s.step op).2.obs)
